@@ -257,9 +257,10 @@ def oracleSigC09 (rate : Nat) (evs : List SigEv) : Option String :=
 
 /-- C14: what was delivered before the cut plus what repeated flush() calls return is exactly the
     transmission's messages, in order, and flush() then returns None (and keeps returning None) -/
-def oracleSigC14 (h : List Byte) (full : Bool) (before flushed : List OutMsg) (endsNone : Bool) : Option String :=
+def oracleSigC14 (hs : List (List Byte)) (full : Bool) (before flushed : List OutMsg) (endsNone : Bool) : Option String :=
   let all := before ++ flushed
-  let expected : List OutMsg := if full then [.som h 0 0, .eom] else [.som h 0 0]
+  -- `hs`: the headers transmitted (each in at least two bursts), in order; `full`: the last one's trailer too
+  let expected : List OutMsg := hs.map (fun h => OutMsg.som h 0 0) ++ (if full then [.eom] else [])
   let same := all.length == expected.length && (all.zip expected).all (fun (a, e) =>
     match a, e with
     | .som t _ _, .som t' _ _ => t == t'
